@@ -33,8 +33,9 @@ for d in sorted(os.listdir('/verif/seeded')):
     m.setdefault('detected_by_quick_checks', {})[prop] = {'exit': r.returncode, 'classes': classes}
     json.dump(m, open(mp, 'w'), indent=1)
     ok = r.returncode == 1 and classes
-    print(f"{d:6} property={prop} exit={r.returncode} {'CAUGHT' if ok else 'MISSED'} {' '.join(classes[:3])}", flush=True)
-    if not ok:
+    expected_miss = m.get('detected') is False
+    print(f"{d:6} property={prop} exit={r.returncode} {'CAUGHT' if ok else ('missed (declared out of reach)' if expected_miss else 'MISSED')} {' '.join(classes[:3])}", flush=True)
+    if not ok and not expected_miss:
         missed.append(d)
 shutil.rmtree('/tmp/seeded-regress', ignore_errors=True)
 subprocess.run(['cargo', 'build', '--release', '--offline'], cwd='/verif/sim', capture_output=True)
